@@ -84,7 +84,7 @@ def run(ctx):
     ctx.rule("C03.signers", "set of servers inserted by servers_to_check_signatures == specification's required signers, for every "
                             "combination of event type / membership / third-party invite / authorising user / version flags")
     dex = D.Dex(w.lookup, adt_discr=w.adt_discr,
-                inline=lambda n: n == f"{FN}::is_invite_via_third_party_id" or n.startswith(f"{FN}::servers_to_check_signatures::"),
+                inline=lambda n: n == f"{FN}::is_invite_via_third_party_id" or n.startswith(f"{FN}::servers_to_check_signatures::") or U.sig_inline(n),
                 effects=lambda n: "BTreeSet" in n and n.endswith("::insert"))
     f = w.fn(f"{FN}::servers_to_check_signatures")
     paths = dex.paths(f, [D.sym("object"), D.sym("rules")])
@@ -123,7 +123,7 @@ def run(ctx):
     ctx.rule("C03.verify", "verify_event: redacts a copy with rules.redaction; every server of servers_to_check_signatures(object, rules.signatures) "
                            "is verified over canonical_json(redacted) with `?` before any Ok; Verified::All iff stored sha256 decodes and equals "
                            "content_hash(unredacted object); missing/ill-typed hashes or signatures are errors")
-    dexa = D.Dex(w.lookup, adt_discr=w.adt_discr, effects=lambda n: True, models=CLONE, unroll=2)
+    dexa = D.Dex(w.lookup, adt_discr=w.adt_discr, effects=lambda n: True, models=CLONE, unroll=2, inline=U.sig_inline)
     f = w.fn(f"{FN}::verify_event")
     paths = dexa.paths(f, [D.sym("pkm"), D.sym("object"), D.sym("rules")])
     okp = [p for p in paths if p.kind == "ret" and U.is_ok(p.ret)]
